@@ -9,7 +9,8 @@ stubs in harness.rs stand in for).  Exit code 2 and a message on stderr if an it
 its braces do not balance: the caller reports the correspondence as broken.
 
 The items are the *real* code; harness.rs supplies only what they need from other crates
-(protobuf getters, pnet's protocol constants, the debug! macro, precise_time_ns).
+(protobuf getters and Message::parse_from_bytes, the redis client, pnet's protocol constants, the debug!
+macro, precise_time_ns).
 """
 import json
 import re
@@ -17,6 +18,13 @@ import sys
 
 # (name, regex for the line that starts the item, kind)   kind: "brace" = up to the matching '}', "semi" = up to ';'
 ITEMS = [
+    ("S2NS",              r"^const S2NS\b", "semi"),
+    ("TIMEOUT_PHANTOMS_NS", r"^const TIMEOUT_PHANTOMS_NS\b", "semi"),
+    ("SessionTracker",    r"^pub struct SessionTracker\b", "brace"),
+    ("Default_SessionTracker", r"^impl Default for SessionTracker\b", "brace"),
+    ("SessionTracker_impl", r"^impl SessionTracker\b", "brace"),
+    ("ingest_from_pubsub", r"^fn ingest_from_pubsub\b", "brace"),
+    ("get_redis_conn",    r"^fn get_redis_conn\b", "brace"),
     ("SessionError",      r"^pub enum SessionError\b", "brace"),
     ("SessionResult",     r"^pub type SessionResult\b", "semi"),
     ("Display_SessionError", r"^impl fmt::Display for SessionError\b", "brace"),
